@@ -53,7 +53,7 @@ func renderTree(v interface{}) string {
 	return fmt.Sprintf("%v", v)
 }
 
-const c18NumOps = 35
+const c18NumOps = 36
 
 // c18Op runs operation fn on the shared read-only input d with private state.
 func c18Op(fn int, d []byte, pv *c18Priv) c18Res {
@@ -188,12 +188,39 @@ func c18Op(fn int, d []byte, pv *c18Priv) c18Res {
 		n := 0
 		p, err := rjson.HandleArrayValues(d, rjson.ArrayValueHandlerFunc(func(x []byte) (int, error) { n++; return rjson.SkipValue(x, nil) }), nil)
 		return c18Res{p: p, err: err != nil, v: fmt.Sprint(n)}
-	default:
+	case 34:
 		n := 0
 		p, err := rjson.HandleObjectValues(d, rjson.ObjectValueHandlerFunc(func(k, x []byte) (int, error) { n += len(k) + 1; return 0, nil }), nil)
 		return c18Res{p: p, err: err != nil, v: fmt.Sprint(n)}
+	default:
+		// a hand-written recursive walk without any Buffer: one traversal in progress per
+		// nesting level of the document, on every goroutine at once
+		w := &c18Walker{}
+		p, err := w.walk(d)
+		return c18Res{p: p, err: err != nil, v: fmt.Sprint(w.nodes)}
 	}
 }
+
+type c18Walker struct{ nodes int }
+
+func (w *c18Walker) walk(d []byte) (int, error) {
+	tt, p, err := rjson.NextTokenType(d)
+	if err != nil {
+		return 0, err
+	}
+	w.nodes++
+	switch tt {
+	case rjson.ArrayStartType:
+		return rjson.HandleArrayValues(d, w, nil)
+	case rjson.ObjectStartType:
+		return rjson.HandleObjectValues(d, w, nil)
+	}
+	_ = p
+	return rjson.SkipValue(d, nil)
+}
+
+func (w *c18Walker) HandleArrayValue(d []byte) (int, error)     { return w.walk(d) }
+func (w *c18Walker) HandleObjectValue(_, d []byte) (int, error) { return w.walk(d) }
 
 // c18Round runs a workload: Steps = shared inputs, Ints = [goroutines, gomaxprocs, stride,
 // fn0, doc0, fn1, doc1, ...]. Expected results are computed sequentially first; then the
